@@ -377,7 +377,7 @@ theorem step_list_start (R : Route) (i : Nat) (ft : Option Tier) (σ : St) (th :
       | none =>
         if (R.pe && !R.passErr) = true then ({ σ with lock := some i }, { th with pc := .readP })
         else listCont th.op { σ with lock := some i } th R none := by
-  obtain ⟨op, pc, inv, ret, res, cver, rver⟩ := th
+  obtain ⟨op, pc, inv, ret, res, cver, rver, node⟩ := th
   simp only at hpc hk
   subst hpc
   rcases hk with ⟨x, rfl⟩ | ⟨x, rfl⟩ <;>
@@ -393,7 +393,7 @@ theorem step_list_readP (R : Route) (i : Nat) (ft : Option Tier) (σ : St) (th :
       else match σ.p.val with
         | none => listCont th.op σ th R none
         | some v => (σ, { th with pc := .wb v σ.p.ver }) := by
-  obtain ⟨op, pc, inv, ret, res, cver, rver⟩ := th
+  obtain ⟨op, pc, inv, ret, res, cver, rver, node⟩ := th
   simp only at hpc hk
   subst hpc
   rcases hk with ⟨x, rfl⟩ | ⟨x, rfl⟩ <;>
@@ -406,7 +406,7 @@ theorem step_list_wb (R : Route) (i : Nat) (ft : Option Tier) (σ : St) (th : Th
     (hk : isLM th.op) (hpc : th.pc = .wb v ver) (hfc : fails ft R.ck = false) :
     ((stepThread true R i ft σ th).st, (stepThread true R i ft σ th).th) =
       listCont th.op (σ.setCell R.ck ⟨some v, R.wbTTL, ver⟩) th R (some v) := by
-  obtain ⟨op, pc, inv, ret, res, cver, rver⟩ := th
+  obtain ⟨op, pc, inv, ret, res, cver, rver, node⟩ := th
   simp only at hpc hk
   subst hpc
   rcases hk with ⟨x, rfl⟩ | ⟨x, rfl⟩ <;> simp [stepThread, hfc]
@@ -414,7 +414,7 @@ theorem step_list_wb (R : Route) (i : Nat) (ft : Option Tier) (σ : St) (th : Th
 theorem step_list_write (R : Route) (i : Nat) (ft : Option Tier) (σ : St) (th : Thread) (v : Val) (ttl : Nat)
     (hk : isLM th.op) (hpc : th.pc = .write v ttl) :
     stepThread true R i ft σ th = writeStep R i ft σ th v ttl := by
-  obtain ⟨op, pc, inv, ret, res, cver, rver⟩ := th
+  obtain ⟨op, pc, inv, ret, res, cver, rver, node⟩ := th
   simp only at hpc hk
   subst hpc
   rcases hk with ⟨x, rfl⟩ | ⟨x, rfl⟩ <;> simp [stepThread]
@@ -423,7 +423,7 @@ theorem step_list_writeC (R : Route) (i : Nat) (ft : Option Tier) (σ : St) (th 
     (hk : isLM th.op) (hpc : th.pc = .writeC v ttl ver) (hfc : fails ft R.ck = false) :
     ((stepThread true R i ft σ th).st, (stepThread true R i ft σ th).th) =
       (unlock (σ.setCell R.ck ⟨some v, ttl, ver⟩), finish th .ok) := by
-  obtain ⟨op, pc, inv, ret, res, cver, rver⟩ := th
+  obtain ⟨op, pc, inv, ret, res, cver, rver, node⟩ := th
   simp only at hpc hk
   subst hpc
   rcases hk with ⟨x, rfl⟩ | ⟨x, rfl⟩ <;> simp [stepThread, hfc]
@@ -626,15 +626,75 @@ theorem linv_now {R : Route} {l0 : List Nat} {cfg : Cfg} (h : LInv R l0 cfg) (n 
     LInv R l0 { cfg with now := n } :=
   ⟨h.kinds, h.listy, h.holder, h.owned, h.coh, h.facts, h.memA, h.memB, h.memC, h.memD⟩
 
+theorem pcFacts_evict {R : Route} {σ : St} {t : Tier} {th : Thread} (ht : t ≠ .persistent) (hpe : R.pe = true)
+    (h : pcFacts R σ th) : pcFacts R (σ.setCell t ⟨none, 0, (σ.cell t).ver⟩) th := by
+  have hp : (σ.setCell t ⟨none, 0, (σ.cell t).ver⟩).p = σ.p := p_setCell _ _ _ ht
+  have hcur : curVal R (σ.setCell t ⟨none, 0, (σ.cell t).ver⟩) = curVal R σ := by simp [curVal, hpe, hp]
+  have hck : ((σ.setCell t ⟨none, 0, (σ.cell t).ver⟩).cell R.ck).val = none ∨
+      (σ.setCell t ⟨none, 0, (σ.cell t).ver⟩).cell R.ck = σ.cell R.ck := by
+    by_cases htc : t = R.ck
+    · subst htc; left; simp
+    · right; exact cell_setCell_ne _ _ _ _ htc
+  unfold pcFacts at *
+  cases hpc : th.pc <;> simp only [hpc] at h ⊢ <;> try exact h
+  · obtain ⟨h1, h2, h3, h4⟩ := h
+    refine ⟨h1, ?_, h3, h4⟩
+    rcases hck with h | h
+    · exact h
+    · rw [h]; exact h2
+  · obtain ⟨h1, h2, h3, h4, h5⟩ := h
+    refine ⟨h1, ?_, by rw [hp]; exact h3, h4, h5⟩
+    rcases hck with h | h
+    · exact h
+    · rw [h]; exact h2
+  · obtain ⟨h1, h2, h3, h4⟩ := h
+    refine ⟨by rw [hcur]; exact h1, h2, h3, ?_⟩
+    intro hp'
+    rcases hck with h | h
+    · exact Or.inl h
+    · rw [h, hp]; exact h4 hp'
+  · obtain ⟨h1, h2, h3, h4⟩ := h
+    exact ⟨h1, by rw [hp]; exact h2, h3, h4⟩
+
+theorem linv_evict {R : Route} {l0 : List Nat} {cfg : Cfg} (h : LInv R l0 cfg) {t : Tier}
+    (ht : t ≠ .persistent) (hpe : R.pe = true) (n : Nat) :
+    LInv R l0 { cfg with st := cfg.st.setCell t ⟨none, 0, (cfg.st.cell t).ver⟩, now := n } := by
+  have hp : (cfg.st.setCell t ⟨none, 0, (cfg.st.cell t).ver⟩).p = cfg.st.p := p_setCell _ _ _ ht
+  have hcur : curVal R (cfg.st.setCell t ⟨none, 0, (cfg.st.cell t).ver⟩) = curVal R cfg.st := by
+    simp [curVal, hpe, hp]
+  refine ⟨h.kinds, by show listy (curVal R _); rw [hcur]; exact h.listy,
+    fun i th hth hm => by show (St.setCell _ _ _).lock = some i; rw [lock_setCell]; exact h.holder i th hth hm,
+    fun i hi => h.owned i (by simpa using hi), ?_, fun i th hth => pcFacts_evict ht hpe (h.facts i th hth),
+    ?_, ?_, ?_, ?_⟩
+  · intro _ hl
+    show ((St.setCell _ _ _).cell R.ck).val = none ∨ ((St.setCell _ _ _).cell R.ck).val = (St.setCell _ _ _).p.val
+    by_cases htc : t = R.ck
+    · subst htc; left; simp
+    · rw [cell_setCell_ne _ _ _ _ htc, hp]
+      exact h.coh hpe (by simpa using hl)
+  · intro x i th hth hop hc hno
+    show x ∈ lst (curVal R _); rw [hcur]; exact h.memA x i th hth hop hc hno
+  · intro x i th hth hop hc hno
+    show x ∉ lst (curVal R _); rw [hcur]; exact h.memB x i th hth hop hc hno
+  · intro y hy
+    exact h.memC y (by rw [← hcur]; exact hy)
+  · intro y hy hno
+    show y ∈ lst (curVal R _); rw [hcur]; exact h.memD y hy hno
+
 theorem linv_stepCfg (R : Route) (hck : R.ck ≠ .persistent) (hpp : R.pe = true → R.passErr = false)
-    (l0 : List Nat) (cfg : Cfg) (e : Entry) (hpf : PFault e.fault) (h : LInv R l0 cfg) :
+    (l0 : List Nat) (cfg : Cfg) (e : Entry) (hpf : PFault e.fault) (hev : EvictOK R e) (hn : Nodes0 cfg)
+    (h : LInv R l0 cfg) :
     LInv R l0 (stepCfg .repaired R cfg e) := by
-  rcases stepCfg_cases .repaired R cfg e with heq | ⟨th, hth, hen, heq⟩
+  rcases stepCfg_cases0 .repaired R cfg e hn with heq | ⟨t, het, heq⟩ | ⟨th, hth, hen, heq⟩
   · rw [heq]; exact linv_now h _
+  · rw [heq]
+    obtain ⟨h0, htp, hpe⟩ := hev t het
+    rw [h0, evictCell_zero]
+    exact linv_evict h htp hpe _
   · rw [heq]
     simp only [Variant.lk] at hen ⊢
     rw [stepThread_spawn_repaired]
-    simp only [Option.toList]
+    simp only [Option.map_none, Option.toList]
     have hoth := others_nonmid h hth hen
     have hl := lock_of_enabled h hth hen
     have hstep := list_step R hck hpp e.tid e.fault hpf cfg.st
@@ -646,14 +706,15 @@ theorem linv_stepCfg (R : Route) (hck : R.ck ≠ .persistent) (hpp : R.pe = true
     · exact linv_commit h hth hoth hc.op hc.cv0 hc.cv hc.cur hc.lock hc.coh hc.facts
 
 theorem linv_run (R : Route) (hck : R.ck ≠ .persistent) (hpp : R.pe = true → R.passErr = false)
-    (l0 : List Nat) (sch : List Entry) (hpf : ∀ e ∈ sch, PFault e.fault) (cfg : Cfg) (h : LInv R l0 cfg) :
+    (l0 : List Nat) (sch : List Entry) (hpf : ∀ e ∈ sch, PFault e.fault) (hev : ∀ e ∈ sch, EvictOK R e)
+    (cfg : Cfg) (hn : Nodes0 cfg) (h : LInv R l0 cfg) :
     LInv R l0 (run .repaired R cfg sch) := by
   induction sch generalizing cfg with
   | nil => exact h
   | cons e rest ih =>
-    exact ih (fun e' he' => hpf e' (List.mem_cons_of_mem _ he')) _
-      (linv_stepCfg R hck hpp l0 cfg e (hpf e (List.mem_cons_self ..)) h)
-
+    exact ih (fun e' he' => hpf e' (List.mem_cons_of_mem _ he')) (fun e' he' => hev e' (List.mem_cons_of_mem _ he')) _
+      (nodes0_stepCfg R cfg e hn)
+      (linv_stepCfg R hck hpp l0 cfg e (hpf e (List.mem_cons_self ..)) (hev e (List.mem_cons_self ..)) hn h)
 
 /-! ### From the invariant to `holdsList` -/
 
@@ -750,7 +811,8 @@ theorem isListMut_LM {o : Op} (h : isListMut o = true) (hw : o ≠ .wbk) : isLM 
 
 theorem list_main (R : Route) (c s p : Option Val) (ops : List Op) (sch : List Entry)
     (hck : R.ck ≠ .persistent) (hpp : R.pe = true → R.passErr = false) (hops : ∀ o ∈ ops, o ≠ .wbk)
-    (hf : ∀ e ∈ sch, e.fault = none ∨ e.fault = some .persistent) (hco : coherent R c s p = true) :
+    (hf : ∀ e ∈ sch, e.fault = none ∨ e.fault = some .persistent) (hev : ∀ e ∈ sch, EvictOK R e)
+    (hco : coherent R c s p = true) :
     holdsList (initVal R c s p) (model .repaired R c s p ops sch).ths
       (model .repaired R c s p ops sch).fget = true := by
   unfold holdsList
@@ -780,7 +842,7 @@ theorem list_main (R : Route) (c s p : Option Val) (ops : List Op) (sch : List E
           cases v <;> simp [hi, listOf] at hlo
           exact ⟨trivial, by simp [lst, hlo]⟩
       obtain ⟨hly, hl0⟩ := hlisty
-      have hinv := linv_run R hck hpp _ sch hf _ (linv_init R hpp c s p ops hco hall hly)
+      have hinv := linv_run R hck hpp _ sch hf hev _ (nodes0_init c s p ops) (linv_init R hpp c s p ops hco hall hly)
       -- all calls have returned: nobody holds the lock
       have hlock : (run .repaired R (initCfg c s p ops) sch).st.lock = none := by
         cases hl : (run .repaired R (initCfg c s p ops) sch).st.lock with
